@@ -45,16 +45,16 @@ CHECKS = {
                 text="Mostly decided: attribute values never read; text payload flows only into Element.text whose every read is is_some/is_none/discriminant; Text and CData both set the flag, ignored kinds are no-ops; no reader configuration is set or read; Start/Empty arms agree (same tag parser, seen list, demotion in both, demotion order = vector order). Not decided: full observational equivalence of <x/> and <x></x> for every history; buffer-size independence of quick-xml.",
                 note=TB + "quick-xml yields the same events for the same bytes regardless of chunking."),
     "C16": dict(lim=True, cat="other", tech="static analysis: guard rules over MIR for every insertion into Element.children, inspection of lookup predicates", ref="DESIGN.md section 4 C16, section 3 A10",
-                text="Partial: every insertion into a children vector is guarded by a name-only absence test of the inserted child's own name or re-inserts the value just removed; lookups/removal compare the name only and remove the found index; adding a present name is a no-op; mark-optional re-inserts the removed value (subtree kept); renderer emits one field per child/attribute. Not decided: step-by-step model equivalence, output well-formedness.",
+                text="Partial: every insertion into a children vector is guarded by a name-only absence test of the inserted child's own name or re-inserts the value just removed; lookups/removal compare the name only and remove the found index; adding a present name is a no-op and an absent name is always appended as Mandatory (the insertion depends on the name lookup only; Element::eq implies equal names, Necessity::eq implies equal payloads); lookups scan the whole list; no traversal of children/attributes is shortened; mark-optional re-inserts the removed value (subtree kept); renderer emits one field per child/attribute. Not decided: step-by-step model equivalence, output well-formedness.",
                 note=TB + "Induction over operation sequences with Element::new as base case is a hand argument."),
     "C04": dict(lim=True, cat="other", tech="static analysis: guard cross-check between sibling identifier producers (reserved-word and uniqueness guards on every path to an identifier slot)", ref="DESIGN.md section 4 C04",
-                text="Partial: field identifiers reach their template slots only through to_valid_key and a single reservation list that records a name only when not yet contained (holds); struct identifiers are demanded the same and fail both guards - two known findings confirmed on the real code (reserved/prelude names, duplicate struct names); header slot and field-type slot of a child are the same function of the same trace. Not decided: sufficiency of the guards for all names, syntax of the whole output.",
+                text="Partial: field identifiers reach their template slots only through to_valid_key and a single reservation list that records a name only when not yet contained (holds); struct identifiers are demanded the same and fail both guards - two known findings confirmed on the real code (reserved/prelude names, duplicate struct names); header slot and field-type slot of a child are the same function of the same trace; every emitted line is one of the output grammar's templates written out exactly; the identifier map covers every child and attribute and is read back under the key it was stored with; every element gets a name hint >= 1. Not decided: sufficiency of the guards for all names.",
                 note=TB + "convert_string::to_valid_key yields a legal non-keyword identifier."),
-    "C02": dict(cat="other", tech="static analysis: constant-table agreement (preset constants from MIR vs key literals of the locked deserializer sources) + renderer use sets", ref="DESIGN.md section 4 C13/C02, section 3 A8",
-                text="Thin: only the binding-key agreement clause - the quick-xml preset's text identifier and attribute prefix are keys the locked quick-xml deserializer recognises, and the renderer binds text/attributes through exactly these fields. Compilation, from_str success and deny_unknown_fields are NOT decided (they need rustc and the deserializer to run).",
+    "C02": dict(lim=True, cat="other", tech="static analysis: constant-table agreement (preset constants from MIR vs key literals of the locked deserializer sources) + renderer use sets + output-template grammar + the C04 and C01 rule packs as necessary conditions", ref="DESIGN.md section 4 C13/C02, section 3 A8",
+                text="Partial, necessary conditions only: (a) binding-key agreement - the quick-xml preset's text identifier and attribute prefix are keys the locked quick-xml deserializer recognises, the default derive list names macros in scope incl. Deserialize, and the renderer binds text/attributes through exactly these fields; (b) the output-template grammar and the C04 identifier/struct-name rules (a duplicate or illegal name does not compile; C04's two known findings are listed for this property too); (c) the soundness-direction mechanism rules of C01 (a schema that does not admit a source document cannot deserialize it). Compilation, from_str success and deny_unknown_fields themselves are NOT decided (they need rustc and the deserializer to run).",
                 note=TB + "Registry sources of the version named in Cargo.lock are what generated code is compiled against."),
-    "C13": dict(cat="other", tech="static analysis: constant-table agreement (preset constants from MIR vs key literals of the locked deserializer sources) + renderer use sets", ref="DESIGN.md section 4 C13/C02, section 3 A8",
-                text="Thin: only the binding-key agreement clause for the serde-xml-rs preset. It is violated today ($text vs serde-xml-rs 0.6.0's $value: text content is dropped) - a known finding confirmed on the real crates, not repairable without editing a pinned test. Compilation and from_str success are NOT decided.",
+    "C13": dict(lim=True, cat="other", tech="static analysis: constant-table agreement (preset constants from MIR vs key literals of the locked deserializer sources) + renderer use sets + output-template grammar + the C04 and C01 rule packs as necessary conditions", ref="DESIGN.md section 4 C13/C02, section 3 A8",
+                text="Partial, necessary conditions only: the binding-key agreement clause for the serde-xml-rs preset - violated today ($text vs serde-xml-rs 0.6.0's $value: text content is dropped), a known finding confirmed on the real crates, not repairable without editing a pinned test - plus, as for C02, the default derive list, the output-template grammar, the C04 identifier/struct-name rules (its two known findings listed here too) and the soundness-direction rules of C01. Compilation and from_str success themselves are NOT decided.",
                 note=TB + "Registry sources of the version named in Cargo.lock."),
 }
 
